@@ -20,11 +20,21 @@ PROP = dict(
                    'correctness; any fuel; staged as first_pass_slices_in_table, tree_passes_slices_in_table, '
                    'deferred_and_calls_slices_in_table); (2) the lexical layer completely - reader_inv, reads_below_pkgEnd, '
                    'lex_slices_in_table, stored_values, total_partial (decoders never panic / run out of fuel, fuel len+1), init_inv; '
-                   '(3) opcode_table_sane over the opcode tables regenerated from the compiled Go code on every run. NOT proved: that '
-                   'the parser passes never end in .panic/.outOfFuel with fuel linear in the input (C12.total beyond the decoders), '
+                   '(3) opcode_table_sane over the opcode tables regenerated from the compiled Go code on every run; (4) totality and '
+                   'well-formedness of the FIRST PASS - first_pass_total / first_pass_WF: for every table below 2^32-2^28 bytes parsed '
+                   'into ANY C13.WF pool (freed slots allowed and reused: second and later tables) with fuel >= 13*len+13 (fuelFor is), init + '
+                   'scopeEnter(0) + parseObjectList and everything they call never end in .panic or .outOfFuel, and in the state '
+                   'they return (ok or failed) the pool satisfies C13.WF, every live opcode-table index is in range and '
+                   'the scope stack holds live slots (first_pass_is_prefix: parseAML = firstPass >>= afterFirstPass); (5) panic-freedom and '
+                   'well-formedness of the tree passes that do not free objects - connect_named_no_panic_WF (connectNamedObjArgs + '
+                   'attachSiblingsAsArgs), relocate_no_panic_WF, connect_non_named_no_panic_WF, resolve_calls_no_panic_WF (under the '
+                   'hypothesis CallShape: unresolved name-or-call objects hold a []byte): from any C13.WF pool they never end in .panic '
+                   '(every ObjectAt dereference, opcode-table access and detach/append contract is discharged; acyclicity from WF.rank) and '
+                   'the pool they return (ok or failed) is C13.WF with the same live slots; their fuel bound is not proved. NOT proved: that '
+                   'mergeScopeDirectives and parseDeferredBlocks never end in .panic, that any tree pass stays within its fuel, the composition into parseAML (C12.total), '
                    'tree_WF after success/failure and print_total - these are decided per input by the oracle on the real parser and by '
                    'model-vs-implementation correspondence over the boundary list and the mutational stream.',
-        level_note='Partial: totality (no panic, no stack overflow, no hang) and tree well-formedness of the parser passes are NOT theorems; '
+        level_note='Partial: totality (no panic, no stack overflow, no hang) and tree well-formedness are theorems for the first pass (first_pass_total, first_pass_WF; any well-formed pool); four tree passes are proved panic-free and WF-preserving without their fuel bound; mergeScopeDirectives, parseDeferredBlocks and the composition are NOT theorems; '
                    'they need the object-tree invariant of C13 with state-dependent operation contracts threaded through ~25 call sites '
                    'and are covered by differential testing of a faithful executable Lean port (0 mismatches on 10^5-10^6 inputs incl. '
                    'the 3577-object DSDT tree) plus the property oracle on the real code (outcome in {ok, parse error}; stored []byte '
